@@ -319,3 +319,69 @@ def null_call_sequences(sx, m):
         else:
             ok.append(sx.eq(nres[1], wres[1]))
     return sx.And(*ok)
+
+
+# ---------------------------------------------------------------- through the WSGI transport: several return values, one of them lazy
+class LazySvc2(Service):
+    @rpc(Integer, _returns=(Iterable(Integer), Integer))
+    def gen_first(ctx, n):
+        return (i for i in range(n)), n
+
+    @rpc(Integer, _returns=(Integer, Iterable(Integer)))
+    def gen_second(ctx, n):
+        return n, (i for i in range(n))
+
+    @rpc(Integer, _returns=(Integer, Integer))
+    def plain(ctx, n):
+        return n, n + 1
+
+
+WAPPS = {}
+
+
+@harness('C18', params=[(pr, m) for pr in ('json', 'xml', 'soap11') for m in ('gen_first', 'gen_second', 'plain')], label=lambda p: '%s %s' % p,
+         functions=['spyne.server.wsgi.WsgiApplication.handle_rpc', 'spyne.server.null._FunctionCall.__call__'],
+         bounds={'call': 'methods with two return values of which the first, the second or none is a generator of n = 0..3 items; '
+                         'NullServer against the same call through WsgiApplication (chunked or not) in three protocols'})
+def null_vs_wsgi_multi_return(sx, p):
+    """a call with several return values gives the same values through NullServer and through the WSGI transport, also
+    when one of them is produced lazily"""
+    import io, json, types
+    from lxml import etree
+    from spyne.server.wsgi import WsgiApplication
+    proto, m = p
+    n = sx.choose('n', [2, 0, 1, 3])
+    chunked = sx.choose('chunked', [True, False])
+    if proto not in WAPPS:
+        Pc = {'json': JsonDocument, 'xml': XmlDocument, 'soap11': Soap11}[proto]
+        app = Application([LazySvc2], 'tns', in_protocol=Pc(), out_protocol=Pc())
+        WAPPS[proto] = (app, NullServer(app))
+    app, null = WAPPS[proto]
+    direct = getattr(null.service, m)(n)
+    direct = [list(x) if isinstance(x, types.GeneratorType) else x for x in direct]
+    body, ctype = {'json': (('{"%s": {"n": %d}}' % (m, n)).encode(), 'application/json'),
+                   'xml': (('<%s xmlns="tns"><n>%d</n></%s>' % (m, n, m)).encode(), 'text/xml'),
+                   'soap11': (('<s:Envelope xmlns:s="http://schemas.xmlsoap.org/soap/envelope/"><s:Body><%s xmlns="tns"><n>%d</n></%s></s:Body>'
+                               '</s:Envelope>' % (m, n, m)).encode(), 'text/xml')}[proto]
+    environ = {'REQUEST_METHOD': 'POST', 'PATH_INFO': '/', 'QUERY_STRING': '', 'SERVER_NAME': 'localhost', 'SERVER_PORT': '80',
+               'wsgi.url_scheme': 'http', 'wsgi.input': io.BytesIO(body), 'CONTENT_LENGTH': str(len(body)), 'CONTENT_TYPE': ctype}
+    status = []
+    out = b''.join(WsgiApplication(app, chunked=chunked)(environ, lambda s, h, e=None: status.append(s)))
+    sx.observe('status', status)
+    if not status[0].startswith('200'):
+        return False
+    if proto == 'json':
+        d = json.loads(out.decode('utf8'))
+        wire = [d.get('%sResult0' % m), d.get('%sResult1' % m)]
+        wire = [[] if (isinstance(w, list) is False and w is None and isinstance(dv, list)) else w for w, dv in zip(wire, direct)]
+    else:
+        root = etree.fromstring(out)
+        wire = []
+        for k, dv in enumerate(direct):
+            els = [e for e in root.iter() if isinstance(e.tag, str) and etree.QName(e).localname == '%sResult%d' % (m, k)]
+            if len(els) != 1:
+                return False
+            wire.append([int(c.text) for c in els[0]] if isinstance(dv, list) else (None if els[0].text is None else int(els[0].text)))
+    sx.observe('direct', direct)
+    sx.observe('wire', wire)
+    return wire == direct
